@@ -569,18 +569,21 @@ fn binary32_stream(rng: &mut Sm64, out: &mut Out, id: &mut u64, count: usize) {
                         out.rust_eval(&desc, None);
                     }
                     Ok(f) => {
+                        // what an f32 fit is held to (see C12/Corr.v tol32_ok): the user's tolerance, or 8 times the
+                        // resolution floor sqrt(2 lam eps32 0.7 n) of the f32 cost, whichever is larger
+                        let ss: f64 = x.iter().flatten().map(|v| (*v as f64) * (*v as f64)).sum();
+                        let lam = cfg.alpha + 0.25 * (ss + if icpt { n as f64 } else { 0.0 });
+                        let floor = 8.0 * (2.0 * lam * (f32::EPSILON as f64) * 0.7 * n as f64).sqrt() * (1.0 - 1e-9);
+                        let tol_eff = if floor > cfg.tol { floor } else { cfg.tol };
                         if std::env::var("C12_DEBUG").is_ok() {
                             let pos_id = match &naming { Naming::Bools(m) => m.iter().position(|v| v.coq() == f.pos), Naming::Nums(m) => m.iter().position(|v| v.coq() == f.pos), Naming::Strs(m) => m.iter().position(|v| v.coq() == f.pos) }.unwrap();
                             let g = bin_grad_norm64(&x, &ids, pos_id, cfg.alpha, icpt, &f.w, f.b);
-                            let ss: f64 = x.iter().flatten().map(|v| (*v as f64) * (*v as f64)).sum();
-                            let lam = cfg.alpha + 0.25 * (ss + if icpt { n as f64 } else { 0.0 });
-                            let bnd = (2.0 * lam * (f32::EPSILON as f64) * 0.7 * n as f64).sqrt();
-                            eprintln!("f32 fit id={} n={} d={} alpha={} icpt={} tol={} |g|={:e} ratio={:.3} bnd={:e} r2={:.3}", *id, n, d, cfg.alpha, icpt, cfg.tol, g, g / cfg.tol, bnd, g / bnd.max(cfg.tol));
+                            eprintln!("f32 fit id={} n={} d={} alpha={} icpt={} tol={} |g|={:e} ratio={:.3} tol_eff={:e} r2={:.3}", *id, n, d, cfg.alpha, icpt, cfg.tol, g, g / cfg.tol, tol_eff, g / tol_eff);
                         }
                         let w64: Vec<f64> = f.w.iter().map(|v| *v as f64).collect();
                         let term = format!(
-                            "CBin32 {} {{| b3c_labels := {}; b3c_X := {}; b3c_alpha := {}; b3c_icpt := {}; b3c_tol := {}; b3c_stat := {}; b3c_fit := {{| b3_w := {}; b3_b := b32 {}; b3_pos := {}; b3_neg := {}; b3_thr := b32 {}; b3_Q := {}; b3_exp := {}; b3_prob := {}; b3_pred := {}; b3_w64 := {}; b3_b64 := {} |}} |}}",
-                            cn(*id), clabs(&labels), cmat64(&widen(&x)), sf64(cfg.alpha), cbool(icpt), sf64(cfg.tol), cbool(true),
+                            "CBin32 {} {{| b3c_labels := {}; b3c_X := {}; b3c_alpha := {}; b3c_icpt := {}; b3c_tol := {}; b3c_tol_eff := {}; b3c_stat := {}; b3c_fit := {{| b3_w := {}; b3_b := b32 {}; b3_pos := {}; b3_neg := {}; b3_thr := b32 {}; b3_Q := {}; b3_exp := {}; b3_prob := {}; b3_pred := {}; b3_w64 := {}; b3_b64 := {} |}} |}}",
+                            cn(*id), clabs(&labels), cmat64(&widen(&x)), sf64(cfg.alpha), cbool(icpt), sf64(cfg.tol), sf64(tol_eff), cbool(true),
                             cvec32(&f.w), cbits32(f.b), f.pos, f.neg, cbits32(f.thr), cmat32(&q), cvec32(&f.exps), cvec32(&f.probs), clabs(&f.preds),
                             cvec64(&w64), sf64(f.b as f64)
                         );
@@ -1074,6 +1077,6 @@ fn main() {
     let mut r5 = rng.fork();
     id = 400_000;
     binary32_stream(&mut r5, &mut out, &mut id, if thorough { 300 } else { 48 });
-    out.finish("binary: 2-class data (core of d+1 points carrying both classes when alpha = 0, noisy linear labels, per-feature scales 1e-2..1e2, class balance, sample order incl. minority/majority first and exact count ties, bool/usize/String labels with adversarial naming, optional initial parameters) x alpha {0,1e-3,1,100} x intercept x tolerance; multinomial: 2..6 classes likewise (well-conditioned feature scales) plus the row-spread family of finding F37; GLM: powers {0,1,1.2,1.5,2,3} x links x alpha x intercept with targets in range and |x| <= 1; malformed: class-count errors, shape / non-finite / initial-parameter errors, GLM support violations and border values; queries include stored rows, fresh rows, the origin and rows with |x.w| up to 1e4; non-trivial = every successfully fitted case; distinct = hashes of (data, labels, configuration)");
+    out.finish("binary: 2-class data (core of d+1 points carrying both classes when alpha = 0, noisy linear labels, per-feature scales 1e-2..1e2, class balance, sample order incl. minority/majority first and exact count ties, bool/usize/String labels with adversarial naming, optional initial parameters) x alpha {0,1e-3,1,100} x intercept x tolerance; binary_f32: LogisticRegression<f32> on the same families (scales 0.1..10, tolerance 1e-2 / 1e-3, start at zero), held to max(tolerance, 8 x the f32 cost resolution floor); decision thresholds 0.5, 0, 1, 0.3, the probability of the first query and its neighbouring floats, tiny / subnormal values; multinomial: 2..6 classes likewise (well-conditioned feature scales) plus the row-spread family of finding F37; GLM: powers {0,1,1.2,1.5,2,3} x links x alpha x intercept with targets in range and |x| <= 1; malformed: class-count errors, shape / non-finite / initial-parameter errors, GLM support violations and border values; queries include stored rows, fresh rows, the origin and rows with |x.w| up to 1e4; non-trivial = every successfully fitted case; distinct = hashes of (data, labels, configuration)");
     std::process::exit(0);
 }
